@@ -24,6 +24,7 @@ func init() {
 		RuleDocs: []string{
 			"C10.R7 sticky error: a store of a computed error into a field that a start step returns is not under the test `err != nil` of that very value without a store of nil on the other outcome",
 			"C10.R1 must-pass-through on the start function: error returns after Starting pass a state->Inactive call; occurrence counts of WaitGroup.Add / Done callers per exit; go <core loop> dominated by the state->Active call",
+			"C10.R1 (deferred clean-up) a closure deferred in the start function that aborts / deactivates is installed on the success side of the Starting transition; with such a closure the per-exit barrier balance is undecided",
 			"C10.R2 defer of the deactivating call in the entry block of the core loop before any blocking instruction",
 			"C10.R3a lockset dataflow: every Lock is released on all paths; stores to the life-cycle state field only with the mutex held",
 			"C10.R3b no WaitGroup.Wait / channel send / receive / blocking select while the state mutex is held (intraprocedural + callees to depth 3)",
